@@ -802,6 +802,23 @@ pub enum Mutation {
     /// the complete, valid document is followed by something that makes the file as a whole malformed (a stray closing
     /// brace, a second document, a leftover fragment): index into a per-format list
     Trailing(u8),
+    /// a key of the document written twice (the second time with another value): which one would win is nobody's guess
+    DuplicateKey(u8),
+    /// (YAML, TOML) the document is valid but for one byte in a comment that is not UTF-8: the file is not text
+    NonUtf8,
+}
+
+/// A second occurrence of a top-level key, appended to the rendered document.
+fn duplicate_key_text(f: Format, text: &str, k: u8) -> Option<String> {
+    match f {
+        Format::Json => {
+            let end = text.rfind('}')?;
+            let extra = [", \"root\": {\"level\": \"error\"}", ", \"appenders\": {}", ", \"refresh_rate\": \"77 seconds\", \"refresh_rate\": \"78 seconds\""][k as usize % 3];
+            Some(format!("{}{}{}", &text[..end], extra, &text[end..]))
+        }
+        Format::Yaml => Some(format!("{}\n{}", text.trim_end(), ["root:\n  level: error\n", "appenders: {}\n", "refresh_rate: 77 seconds\nrefresh_rate: 78 seconds\n"][k as usize % 3])),
+        Format::Toml => Some(format!("{}\n{}", text.trim_end(), ["[root]\nlevel = \"error\"\n", "[appenders]\n", "refresh_rate = \"77 seconds\"\nrefresh_rate = \"78 seconds\"\n"][k as usize % 3])),
+    }
 }
 
 /// Text after which the file is no longer a document of its format.
@@ -856,6 +873,8 @@ pub fn mutant_strategy() -> impl Strategy<Value = Mutant> {
         1 => sites(vec!["root", "logger"]).prop_map(Mutation::Dangling),
         3 => prop::sample::select(DEGENERATE.to_vec()).prop_map(|(s, v)| Mutation::Degenerate(s.to_string(), v.to_string())),
         1 => (0u8..8).prop_map(Mutation::Trailing),
+        1 => (0u8..3).prop_map(Mutation::DuplicateKey),
+        1 => Just(Mutation::NonUtf8),
     ];
     (strategy(), mutation, any::<u16>(), prop::sample::select(vec![Format::Yaml, Format::Json, Format::Toml])).prop_map(|(case, mutation, victim, format)| Mutant { case, mutation, victim, format })
 }
@@ -1099,7 +1118,7 @@ fn apply(doc: &mut DV, lc: &LC, m: &Mutant) -> Expect {
             }
             Expect::DanglingStripped
         }
-        Mutation::Trailing(_) => Expect::DocumentRejected,
+        Mutation::Trailing(_) | Mutation::DuplicateKey(_) | Mutation::NonUtf8 => Expect::DocumentRejected,
         Mutation::Degenerate(site, value) => {
             let num = |v: &str| -> DV {
                 match v.parse::<i128>() {
@@ -1171,7 +1190,39 @@ fn check_mutant_in(base: &Path, m: &Mutant, obs: &mut Obs) -> CaseResult {
             return Ok(());
         }
     }
+    if let Mutation::DuplicateKey(k) = &m.mutation {
+        match duplicate_key_text(m.format, &text, *k) {
+            Some(t2) if parse_raw(m.format, &t2).is_err() => text = t2,
+            _ => {
+                obs.class("mutation-not-applicable(skipped)");
+                return Ok(());
+            }
+        }
+    }
     let file = dir.join(format!("cfg.{}", m.format.ext()));
+    if m.mutation == Mutation::NonUtf8 {
+        if m.format == Format::Json {
+            obs.class("mutation-not-applicable(skipped)");
+            return Ok(());
+        }
+        // a comment line with a Latin-1 byte right after the first line
+        let mut bytes = text.clone().into_bytes();
+        let at = bytes.iter().position(|b| *b == b'\n').map(|p| p + 1).unwrap_or(bytes.len());
+        let insert: &[u8] = b"# caf\xE9 au lait\n";
+        bytes.splice(at..at, insert.iter().copied());
+        std::fs::write(&file, &bytes).unwrap();
+        let what = format!("{:?} in a {:?} document", m.mutation, m.format);
+        let loaded = match catch(|| log4rs::config::load_config_file(&file, deserializers())) {
+            Err(p) => return fail(panic_sig("load", &p), format!("{}: load_config_file panicked: {}", what, p)),
+            Ok(r) => r.map_err(|e| e.to_string()),
+        };
+        obs.sub_evals += 1;
+        ensure!(loaded.is_err(), "C14:malformed-accepted", "{}: the file holds a byte that is not UTF-8 (it is not a text document of its format) and load_config_file accepted it", what);
+        obs.nontrivial = true;
+        obs.class("layer=document");
+        obs.class("mutation=not-utf8");
+        return Ok(());
+    }
     std::fs::write(&file, &text).unwrap();
     let what = format!("{:?} in a {:?} document", m.mutation, m.format);
     // both entry points under catch_unwind
@@ -1302,6 +1353,8 @@ fn check_mutant_in(base: &Path, m: &Mutant, obs: &mut Obs) -> CaseResult {
         Mutation::Dangling(s) => format!("dangling:{}", s),
         Mutation::Degenerate(s, v) => format!("degenerate:{}={}", s, v),
         Mutation::Trailing(_) => "trailing-garbage".to_string(),
+        Mutation::DuplicateKey(_) => "duplicate-key".to_string(),
+        Mutation::NonUtf8 => "not-utf8".to_string(),
     }));
     obs.class(format!("format={:?}", m.format));
     Ok(())
@@ -1334,7 +1387,7 @@ pub fn replay(part: &str, case: serde_json::Value) -> Option<CaseResult> {
 pub fn meta() -> EvidenceMeta {
     EvidenceMeta {
         level: "exploration",
-        rule: "part documents: logical configurations (cfgtree routing; 1-5 appenders of kinds file / rolling_file (size, time, onstartup triggers; delete or fixed_window rollers incl. .gz and directory patterns; policy kind present/omitted) / console (presence only); encoders pattern (kind key and pattern present/omitted) or json; 0-2 threshold filters per appender, or chains of 1-4 filters mixing threshold filters with a user-defined kind registered through Deserializers::insert that accepts/rejects records of one level (order-sensitive); optional refresh_rate (seconds, minutes, milli-, micro- and nanoseconds, combined forms); every defaultable key present or omitted; level words in three letter cases) rendered by three hand-written emitters (YAML block/flow mix, JSON, TOML inline/section/sub-section mix) with generated key order; oracle: serde parse and load_config_file succeed, refresh rate and Config accessors equal the logical configuration, and after 15-25 probe records the directory snapshot (clock/thread fields normalised, archives decompressed) equals that of a programmatic twin built with the public builders and documented defaults, for each of the three formats (the configured path may be a symbolic link to a file with another extension: the format is that of the configured name); file appenders are additionally compared with the route()+filter model. part mutants: one mutation of a rendered document (unknown key in document/root/logger/appender/encoder/policy/trigger/roller, wrong-typed value, unknown kind, missing required field, broken filter, dangling appender name, degenerate numerics, malformed text after the complete document) in a generated format; oracle by layer: document-level => rejected by both paths; component-level => document parses, strict path reports an error naming exactly that appender, lossy loading returns the configuration without it (references stripped / filter dropped) and its behaviour equals the twin without the broken part; dangling => strict fails naming it, lossy strips; degenerate numerics => no panic at load or while logging. Ten clock-free patterns (empty, line breaks after {n}, blanks, nested groups); unknown keys carry a number, null, empty string, empty list or empty map; probes alternate between records with and without module path/file/line; the strict path is log4rs::config::create_raw_config. non-trivial = >= 2 appender kinds with a defaulted key (documents); any mutation below the document layer (mutants)".into(),
+        rule: "part documents: logical configurations (cfgtree routing; 1-5 appenders of kinds file / rolling_file (size, time, onstartup triggers; delete or fixed_window rollers incl. .gz and directory patterns; policy kind present/omitted) / console (presence only); encoders pattern (kind key and pattern present/omitted) or json; 0-2 threshold filters per appender, or chains of 1-4 filters mixing threshold filters with a user-defined kind registered through Deserializers::insert that accepts/rejects records of one level (order-sensitive); optional refresh_rate (seconds, minutes, milli-, micro- and nanoseconds, combined forms); every defaultable key present or omitted; level words in three letter cases) rendered by three hand-written emitters (YAML block/flow mix, JSON, TOML inline/section/sub-section mix) with generated key order; oracle: serde parse and load_config_file succeed, refresh rate and Config accessors equal the logical configuration, and after 15-25 probe records the directory snapshot (clock/thread fields normalised, archives decompressed) equals that of a programmatic twin built with the public builders and documented defaults, for each of the three formats (the configured path may be a symbolic link to a file with another extension: the format is that of the configured name); file appenders are additionally compared with the route()+filter model. part mutants: one mutation of a rendered document (unknown key in document/root/logger/appender/encoder/policy/trigger/roller, wrong-typed value, unknown kind, missing required field, broken filter, dangling appender name, degenerate numerics, malformed text after the complete document, a top-level key written twice, a byte that is not UTF-8 in a comment) in a generated format; oracle by layer: document-level => rejected by both paths; component-level => document parses, strict path reports an error naming exactly that appender, lossy loading returns the configuration without it (references stripped / filter dropped) and its behaviour equals the twin without the broken part; dangling => strict fails naming it, lossy strips; degenerate numerics => no panic at load or while logging. Ten clock-free patterns (empty, line breaks after {n}, blanks, nested groups); unknown keys carry a number, null, empty string, empty list or empty map; probes alternate between records with and without module path/file/line; the strict path is log4rs::config::create_raw_config. non-trivial = >= 2 appender kinds with a defaulted key (documents); any mutation below the document layer (mutants)".into(),
         assumptions: vec![
             "root level default and loggers without a level are not generated (documentation and code disagree / statement silent)".into(),
             "console appenders are declared but attached only to a logger that is off (their bytes are C18's business)".into(),
